@@ -299,15 +299,30 @@ class P(Prop):
         return None
 
     @staticmethod
+    def steep_or_outside(curve, load, min_abs_slope=0.5):
+        """is this load outside the load range the curve's points span (PCHIP extrapolates there), or on / next to a segment
+        whose efficiency changes by at least min_abs_slope per unit load?"""
+        pts = sorted([[float(l), float(v)] for l, v in curve])
+        if load < pts[0][0] or load > pts[-1][0]:
+            return True
+        for i in range(len(pts) - 1):
+            slope = abs((pts[i + 1][1] - pts[i][1]) / (pts[i + 1][0] - pts[i][0]))
+            lo = pts[max(i - 1, 0)][0]
+            hi = pts[min(i + 2, len(pts) - 1)][0]
+            if slope >= min_abs_slope and lo <= load <= hi:
+                return True
+        return False
+
+    @staticmethod
     def pred_rough(case, obs, params):
-        if not isinstance(case, dict) or case.get("stream") != "basic" or max(obs.get("roundtrip_err", [0]) or [0]) <= 0.005:
+        """every round trip that misses its bound is made at a load where the curve is steep or extrapolated"""
+        if not isinstance(case, dict) or case.get("stream") != "basic" or len(case.get("curve") or []) < 2:
             return False
-        c = case["curve"]
-        if len(c) < 2:
-            return False
-        pts = sorted([[float(l), float(v)] for l, v in c])
-        slope = max(abs((pts[i + 1][1] - pts[i][1]) / (pts[i + 1][0] - pts[i][0])) for i in range(len(pts) - 1))
-        return slope >= params.get("min_abs_slope", 0.5)
+        r = float(case["rated"])
+        bad = [abs(float(q[2])) / r for q, e in zip(case["qs"] + [[0, 0, x] for x in []], obs.get("roundtrip_err", [])) if e > 0.005]
+        for how in ("strict_roundtrip_err", "strict_roundtrip_err_series"):
+            bad += [abs(x) / r for x, e in zip(obs.get("strict_xs", []), obs.get(how, [])) if not e <= 1e-6]
+        return bool(bad) and all(P.steep_or_outside(case["curve"], l, params.get("min_abs_slope", 0.5)) for l in bad)
 
     PREDICATES = {"rough_curve_roundtrip_above_half_percent": pred_rough.__func__}
 
